@@ -12,6 +12,10 @@ own EXPUNGE responses overtake older queued ones while its EXPUNGE waits behind 
 """
 from __future__ import annotations
 
+import os
+import re
+import sys
+
 from hypothesis import strategies as st
 
 from ..driver import Hang, World, tagged_message
@@ -336,6 +340,9 @@ def execute(trace, prop: str = "C01") -> CaseResult:
                 pass
             else:
                 v("C01.sync.refused", f"session {n}: FETCH 1:* after two NOOPs answered {r.status} although its view holds {len(view.cells)} messages", "sync")
+        if os.environ.get("C01_STREAM"):
+            for n in names:
+                sys.stderr.write(f"--- stream of session {n}\n" + re.sub(rb"\{(\d+)\}\r\n[^*]*?\)\r\n", rb"{..})\r\n", bytes(sess[n][0].writer.buf), flags=re.S).decode("latin-1") + "\n")
 
     async def c02_end():
         # C02/C05: every (source uid, destination uid) pair a COPYUID code claimed names a copy of that message
